@@ -443,9 +443,11 @@ def execute(scn: dict) -> dict:
                 elif not reaped_l:
                     V("child-unreaped", "at-exit:" + tag, f"the child had exited but was not reaped at the instant the context was left (signals={sigs}): nobody waited for it")
         # no additional open descriptor: the read end of the child's stdout must not outlive the context
-        if not child.alive and child.stdout_fd_open and st.get("second_fired"):
-            # a second native task.cancel() while the first one is still being handled interrupts the clean-up's own awaits: nothing
-            # the library awaits can be relied on then (same exemption as for the child's state above)
+        native_cancel_in_cleanup = (native_cancel_inside_exit and child.t_exit is not None and st["t_trigger"] >= child.t_exit)
+        if not child.alive and child.stdout_fd_open and (st.get("second_fired") or native_cancel_in_cleanup):
+            # a second native task.cancel() while the first one is still being handled, or a native cancel arriving when the child is
+            # already gone (i.e. inside the closing of the pipes itself), interrupts the clean-up's own awaits: nothing the library
+            # awaits can be relied on then (same family as the exemption for the child's state above)
             probe("cleanup_interrupted_by_second_native_cancel")
         elif not child.alive and child.stdout_fd_open:
             V("fd-left-open", tag, f"the read end of the child's stdout is still open after the context was left: {child.unread_output()} bytes of the "
